@@ -143,6 +143,9 @@ def prove(name, c, label=None):
     S.results.append((name, bool(_truth(c))))
 
 
+lemma = prove
+
+
 def cover(name):
     pass
 
